@@ -150,6 +150,21 @@ def _musig_keyagg(ctx):
     hooks = {("S256Point", "xonly"): lambda p: xo(p.attrs["id"]) if "id" in p.attrs else b"Q" * 32, ("S256Point", "parse_xonly"): lambda cls, b: pt(b[0] - 0x40),
              ("S256Point", "__rmul__"): rmul, ("S256Point", "combine"): combine, ("Point", "__rmul__"): rmul}
     cells = 0
+    # one key: there is no second key whose coefficient is forced to 1 (BIP327 GetSecondKey finds none); the object is still built -- TapRootMultiSig
+    # asks for the aggregate of all its keys as default internal key, also for a 1-of-1 wallet, which the tree clause quantifies over
+    cells += 1
+    me1 = Obj("taproot", "MuSigTapScript")
+    try:
+        Evaluator(ctx.repo, opaque=opaque, method_hooks=hooks).call(spec, [[pt(0)]], self_obj=me1)
+    except Undecided as u:
+        return _musig_needles(ctx, fn, mod, str(u))
+    except Raised as x:
+        return [ctx.bad(spec, "key aggregation of a single key raises %s: TapRootMultiSig([key], 1) -- a 1-of-1 wallet, inside 1 <= k <= n -- cannot be constructed, so no tree is "
+                              "generated for it" % x.name, fn, mod, key="agg-single")]
+    L1 = b"<L:" + xo(0) + b">"
+    q1 = me1.attrs.get("point")
+    if not isinstance(q1, Obj) or q1.attrs.get("sum") != (("mul", int.from_bytes(b"<C:" + L1 + xo(0) + b">", "big"), 0),):
+        return [ctx.bad(spec, "the aggregate of a single key is not a_1 * P_1 with a_1 = int(H_coef(L ‖ x_1))", fn, mod, key="agg-single")]
     for n in (2, 3, 4):
         for order in itertools.permutations(range(n)):
             cells += 1
